@@ -94,6 +94,7 @@ type runResult struct {
 	Trace      []string        `json:"trace,omitempty"`
 	Sample     json.RawMessage `json:"sample,omitempty"`
 	Counters   map[string]int  `json:"counters,omitempty"`
+	Proc       int             `json:"proc"`
 }
 
 type violation struct {
@@ -118,6 +119,7 @@ type replayFile struct {
 	Violation   *violation        `json:"expected_violation"`
 	Trace       []string          `json:"trace,omitempty"`
 	ProcessLvl  bool              `json:"process_level,omitempty"`
+	Proc        int               `json:"proc"`
 }
 
 type knownFile struct {
@@ -506,10 +508,15 @@ func parseOut(path string) (res []*runResult, counters map[string]int, open int)
 }
 
 func (c *ctx) worker(id int, from, to int, cpu int, budget time.Duration) *workerOut {
+	return c.workerProc(id, id, from, to, cpu, budget)
+}
+
+// workerProc: proc is the per-process choice number handed to the worker (core.ProcChoice).
+func (c *ctx) workerProc(id, proc int, from, to int, cpu int, budget time.Duration) *workerOut {
 	outPath := filepath.Join(c.scratch, fmt.Sprintf("out-%d-%d.jsonl", id, from))
 	os.Remove(outPath)
 	env := c.simEnv("search", map[string]string{"SIM_SEED": strconv.FormatUint(c.seed, 10), "SIM_FROM": strconv.Itoa(from),
-		"SIM_TO": strconv.Itoa(to), "SIM_OUT": outPath, "SIM_BUDGET": budget.String(), "GOMAXPROCS": strconv.Itoa(cpu)})
+		"SIM_TO": strconv.Itoa(to), "SIM_OUT": outPath, "SIM_BUDGET": budget.String(), "GOMAXPROCS": strconv.Itoa(cpu), "SIM_PROC": strconv.Itoa(proc)})
 	cmd := exec.Command(c.bin, "-test.run", "^TestSim$", "-test.timeout", "0")
 	cmd.Dir = c.mod
 	cmd.Env = append(append([]string{}, c.env...), env...)
@@ -712,7 +719,7 @@ func shortHash(s string) string {
 func (c *ctx) confirm(r *runResult, processLevel bool) (string, error) {
 	fp := r.Violation.fingerprint()
 	rf := &replayFile{Property: c.spec.ID, Scenario: c.scen, Tier: c.tier, Seed: r.Seed, RunIdx: r.Idx, Tape: r.Tape,
-		Fingerprint: fp, Violation: r.Violation, Trace: r.Trace, ProcessLvl: processLevel, Env: c.spec.ExtraEnv}
+		Fingerprint: fp, Violation: r.Violation, Trace: r.Trace, ProcessLvl: processLevel, Env: c.spec.ExtraEnv, Proc: r.Proc}
 	path := filepath.Join(outDir, "replays", c.spec.ID+"-"+shortHash(fp)+".json")
 	tmp := filepath.Join(c.scratch, "replay-"+shortHash(fp)+".json")
 	writeJSON(tmp, rf)
@@ -954,7 +961,7 @@ func (c *ctx) mainFlow(replay string, keep bool) int {
 							break
 						}
 						rs := runSeed(c.seed, wo.openIdx)
-						agg.results = append(agg.results, &runResult{Type: "dead", Idx: wo.openIdx, Seed: rs, Violation: v, Tape: rawTape(rs, 6000)})
+						agg.results = append(agg.results, &runResult{Type: "dead", Idx: wo.openIdx, Seed: rs, Violation: v, Tape: rawTape(rs, 6000), Proc: i})
 						from = wo.openIdx + 1
 						continue
 					}
@@ -1124,7 +1131,9 @@ func (c *ctx) determinism() int {
 func (c *ctx) determinismN(n int, cpus []int) int {
 	var first map[int]string
 	for rep, cpu := range cpus {
-		wo := c.worker(100+rep, 0, n, cpu, 10*time.Minute)
+		// the same per-process choice number for every repetition (1: exercises the settings that
+		// change process-global state)
+		wo := c.workerProc(100+rep, 1, 0, n, cpu, 10*time.Minute)
 		if wo.openIdx >= 0 {
 			// a process-level violation inside the smoke sample is handled by the search phase
 			return 0
